@@ -2,6 +2,7 @@ mod ops;
 mod props;
 mod report;
 mod run;
+mod sched;
 mod shim;
 mod world;
 
@@ -48,6 +49,7 @@ fn dispatch_run(prop: &str, tier: Tier, shard: Shard, rep: &mut Report) {
     match prop {
         "C02" => props::c02::run(tier, shard, rep),
         "C03" => props::c03::run(tier, shard, rep),
+        "C04" => props::c04::run(tier, shard, rep),
         "C07" => props::c07::run(tier, shard, rep),
         "C08" => props::c08::run(tier, shard, rep),
         "C12" => props::c12::run(tier, shard, rep),
@@ -70,6 +72,7 @@ fn dispatch_replay(prop: &str, case: &serde_json::Value, rep: &mut Report) {
     match prop {
         "C02" => props::c02::replay(case, rep),
         "C03" => props::c03::replay(case, rep),
+        "C04" => props::c04::replay(case, rep),
         "C07" => props::c07::replay(case, rep),
         "C08" => props::c08::replay(case, rep),
         "C12" => props::c12::replay(case, rep),
